@@ -4,7 +4,7 @@
    Property theorems only; each is closed by a lemma proved in Proofs/.  Dec values are their
    10^18-scaled integers ("ulp" = 10^-18); floats are integers in units of 2^-1074.          *)
 From Comdex Require Import Lib.Base Lib.DecArith Lib.F64 Model.Accrual Model.AccrualFast Model.Pow Model.Rates Model.AccrualSites
-  Proofs.AccrualProofs Proofs.AccrualFastProofs Proofs.PowProofs Proofs.RatesProofs Proofs.AccrualSitesProofs.
+  Proofs.AccrualProofs Proofs.AccrualFastProofs Proofs.PowProofs Proofs.CmpSubaddProofs Proofs.RatesProofs Proofs.AccrualSitesProofs.
 
 (* ============ (i) index accrual: CalculateLendReward / CalculateBorrowInterest ============ *)
 (* how the three lend functions reach the common step: negative elapsed time is an error, a
@@ -322,17 +322,29 @@ Theorem c18_cmp_monotone_principal : forall pow amt amt' lsr secs,
 Proof. exact cmp_monotone_principal. Qed.
 Print Assumptions c18_cmp_monotone_principal.
 
-(* PARTIAL: the exact core only.  With H4 in the tested form  pow x y1 * pow x y2 <=
-   (1 + en/2^53) * pow x y12  the accrual factors satisfy (f1-1) + (f2-1) <= (f12-1) + en/2^53*f12.
-   Missing: carrying this through the two float roundings (f-1, *amount: relative error 2^-53
-   each, Lib/F64.v rnd64_nn_err) and the 18-decimal formatting (half an ulp each) to a bound on
-   the returned Dec amounts, expected  amount * (4*2^-53*(f12-1) + eps*f12) + 1.5 ulp.  The
-   harness evaluates that bound on the implementation's results (predicate only). *)
-Theorem c18_cmp_subadditive_partial : forall en f1 f2 f12, F_ONE <= f1 -> F_ONE <= f2 ->
-  h4_ok en f1 f2 f12 = true ->
-  ((f1 - F_ONE) + (f2 - F_ONE)) * F_P53 <= (f12 - F_ONE) * F_P53 + en * f12.
-Proof. exact cmp_core_subadd. Qed.
-Print Assumptions c18_cmp_subadditive_partial.
+(* Two consecutive accruals on the same principal against one accrual over the combined
+   interval, on the RETURNED Dec amounts, through both float roundings (f - 1, * amount) and the
+   three 18-decimal formattings.  The premise on math.Pow is H4 alone (quasi-multiplicativity
+   over consecutive intervals, pow x y1 * pow x y2 <= (1 + en/2^53) * pow x y12, tested on every
+   interval triple: observed en <= 22) together with pow >= 1 at the three points:
+       n1 + n2 <= n12 + amount * pow x y12 * (en + 5) * 2^-53 + 2 ulp.
+   The slack is proportional to principal * growth factor (relative size (en + 5) * 2^-53, i.e.
+   3 * 10^-15 for en = 22) plus two units of the last stored decimal place: as for the index
+   accrual, "beyond rounding in the last stored decimal place" holds in that amount-relative
+   sense only (one binary64 rounding of an amount of 10^18 ulps is already 10^2 ulps). *)
+Theorem c18_cmp_subadditive : forall pow en amt lsr t1 t2,
+  let x := cmp_x lsr in
+  let f1 := pow x (cmp_y t1) in let f2 := pow x (cmp_y t2) in let f12 := pow x (cmp_y (t1 + t2)) in
+  F_ONE <= f1 -> F_ONE <= f2 -> F_ONE <= f12 -> 0 <= amt < 2 ^ 63 -> 0 <= en <= EN_MAX -> h4_ok en f1 f2 f12 = true ->
+  holds_C18_cmp_subadditive en (cmp_amtf amt) f12 (cmp_new pow amt lsr t1) (cmp_new pow amt lsr t2) (cmp_new pow amt lsr (t1 + t2)) = true /\
+  (cmp_new pow amt lsr t1 + cmp_new pow amt lsr t2 - cmp_new pow amt lsr (t1 + t2) - 2) * F_ONE * F_ONE * F_P53
+    <= P18f * cmp_amtf amt * f12 * (en + 5).
+Proof.
+  intros pow en amt lsr t1 t2. cbv zeta. intros H1 H2 H12 Ha Hen H4.
+  pose proof (cmp_subadditive pow en amt lsr t1 t2 H1 H2 H12 Ha Hen H4) as B. cbv zeta in B.
+  split; [exact B|]. unfold holds_C18_cmp_subadditive in B. apply Z.leb_le in B. exact B.
+Qed.
+Print Assumptions c18_cmp_subadditive.
 
 (* ============ (iv) the accrual sites ============ *)
 (* The keeper functions that select principal, rate and time base from the stored records, call
@@ -509,6 +521,21 @@ Proof.
   - reflexivity.
   - vm_compute. reflexivity.
 Qed.
+
+(* an instance of the sub-additivity theorem: pow = the binary64 values of 1.1^(1/2) and 1.1;
+   10 % on 10^12, half a year twice against one year.  H4 holds with en = 1 (not with en = 0: the
+   rounded square root squared exceeds 1.1), the premises are met and the bound holds *)
+Example c18_cmp_subadditive_nonvacuous :
+  let pw := fun x y : Z => if y =? F_ONE then x else 4723415137801974 * 2 ^ 1022 in
+  let x := cmp_x 100000000000000000 in
+  let n1 := cmp_new pw 1000000000000 100000000000000000 15778800 in
+  let n12 := cmp_new pw 1000000000000 100000000000000000 31557600 in
+  EN_MAX = 2 ^ 40 /\ cmp_y 15778800 * 2 = F_ONE /\ F_ONE <= pw x (cmp_y 15778800) /\ F_ONE <= pw x (cmp_y 31557600) /\
+  h4_ok 0 (pw x (cmp_y 15778800)) (pw x (cmp_y 15778800)) (pw x (cmp_y 31557600)) = false /\
+  h4_ok 1 (pw x (cmp_y 15778800)) (pw x (cmp_y 15778800)) (pw x (cmp_y 31557600)) = true /\
+  holds_C18_cmp_subadditive 1 (cmp_amtf 1000000000000) (pw x (cmp_y 31557600)) n1 n1 n12 = true /\
+  (n1, n12) = (48808848170151634216308593750, 100000000000000091552734375000).
+Proof. vm_compute. repeat split; discriminate. Qed.
 
 Example c18_sites_nonvacuous :
   let core := fun x y : Z => x in
